@@ -5,7 +5,7 @@ Open Scope string_scope.
 Open Scope list_scope.
 
 (* ---------- Header.Valid ---------- *)
-Lemma src_header_valid typ alg : V2.Header_Valid typ alg = None <-> header_valid typ alg = true.
+Lemma src_header_valid typ alg : V2.Header_Valid alg typ = None <-> header_valid typ alg = true.
 Proof.
   unfold V2.Header_Valid, header_valid, Gen.Tables.token_type_jwt, Gen.Tables.alg_old, Gen.Tables.alg_new. cbv zeta.
   destruct ("JWT" =? to_upper typ); cbn [negb andb]; [|split; discriminate].
@@ -14,8 +14,8 @@ Proof.
 Qed.
 
 (* ---------- identifier.Kind / identifier.Version ---------- *)
-Lemma src_id_kind i : V2.identifier_Kind (id_top_type i) (id_nats_type i) = id_kind i.
+Lemma src_id_kind i : V2.identifier_Kind (id_nats_type i) (id_top_type i) = id_kind i.
 Proof. reflexivity. Qed.
-Lemma src_id_version i : V2.identifier_Version (id_top_type i) (id_nats_version i) = id_version i.
+Lemma src_id_version i : V2.identifier_Version (id_nats_version i) (id_top_type i) = id_version i.
 Proof. reflexivity. Qed.
 
